@@ -32,6 +32,7 @@ package main
 
 import (
 	"fmt"
+	"regexp"
 	"strconv"
 	"strings"
 	"unicode"
@@ -827,6 +828,12 @@ func parseSpecText(src, pkg, file string, assumed bool) (*SpecFile, error) {
 				sep = ":"
 			}
 			k := strings.Index(tail, sep)
+			if sep == "=" {
+				// the header may contain uses=LOC,LOC: the definition starts at the first "=" that stands alone
+				if loc := regexp.MustCompile(`(^|\s)=(\s|$)`).FindStringIndex(tail); loc != nil {
+					k = strings.Index(tail[loc[0]:], "=") + loc[0]
+				}
+			}
 			if k < 0 {
 				return nil, errf(s.line, "missing %q in %s", sep, s.kw)
 			}
